@@ -211,7 +211,13 @@ def combo_case(case):
     elif kind == "data":
         name, tag = arg
         bad = {"nan": lambda: np.where(np.eye(N, D) > 0, np.nan, X), "inf": lambda: np.where(np.eye(N, D) > 0, np.inf, X),
-               "strings": lambda: np.array([["a", "b", "c"]] * N, dtype=object), "one_dim": lambda: X[:, 0], "three_dim": lambda: X.reshape(N, D, 1),
+               "strings": lambda: np.array([["a", "b", "c"]] * N, dtype=object),
+               # text that happens to spell numbers is still non-numeric data (str / bytes arrays, nested lists of str)
+               "numeric_text": lambda: np.array([[repr(float(x)) for x in row] for row in X]),
+               "numeric_text_list": lambda: [[repr(float(x)) for x in row] for row in X],
+               "numeric_bytes": lambda: np.array([[repr(float(x)).encode() for x in row] for row in X]),
+               # (object arrays whose cells parse as numbers are converted by scikit-learn's own validation convention: not in the menu)
+               "one_dim": lambda: X[:, 0], "three_dim": lambda: X.reshape(N, D, 1),
                "empty": lambda: np.empty((0, D)), "no_features": lambda: np.empty((N, 0)), "scalar": lambda: 3.0, "none": lambda: None,
                "fewer_samples_than_clusters": lambda: X[:2], "complex": lambda: X.astype(complex) + 1j}[tag]()
         model = M.make(name) if name != "Kauri" else M.make("Kauri", min_samples_leaf=3, min_samples_split=6)
@@ -342,7 +348,7 @@ def explorers(tier, seed):
     firsts = [[0], [1], [0, 1], [2, 0], [0, 1, 2], [3], [-1], [0, 3], [1, 1], [2, 1, 0]]
     c2 = [(name, f, seed) for name in M.SPARSE for f in firsts]
     c3 = [("kauri_leaf_split", (l, s), seed) for l in (1, 2, 3) for s in (2, 3, 4, 5, 6)]
-    tags = ["nan", "inf", "strings", "one_dim", "three_dim", "empty", "no_features", "scalar", "none", "fewer_samples_than_clusters", "complex"]
+    tags = ["nan", "inf", "strings", "numeric_text", "numeric_text_list", "numeric_bytes", "one_dim", "three_dim", "empty", "no_features", "scalar", "none", "fewer_samples_than_clusters", "complex"]
     c3 += [("data", (name, t), seed) for name in M.ESTIMATORS for t in tags]
     for name in M.ESTIMATORS:
         calls = ["predict", "score"] + (["predict_proba"] if name != "Kauri" else ["print_kauri_tree"]) + \
